@@ -870,21 +870,28 @@ func (node *IndividualNode) UniqueIDs() (nodes []*UniqueIDNode) {
 func (node *IndividualNode) UniqueIdentifiers() *StringSet {
 	node.validateCache()
 
-	if node.cachedUniqueIDs == nil {
-		node.cachedUniqueIDs = NewStringSet()
+	if uniqueIDs := node.cachedUniqueIDs; uniqueIDs != nil {
+		return uniqueIDs
+	}
 
-		for _, id := range node.UniqueIDs() {
-			if uuid, err := id.UUID(); err == nil {
-				node.cachedUniqueIDs.Add(uuid.String())
-			}
-		}
+	// The set must be complete before it is stored. Compare uses several
+	// goroutines and another one must never see (and search) a set that is
+	// still being filled.
+	uniqueIDs := NewStringSet()
 
-		for _, id := range node.FamilySearchIDs() {
-			node.cachedUniqueIDs.Add(id.String())
+	for _, id := range node.UniqueIDs() {
+		if uuid, err := id.UUID(); err == nil {
+			uniqueIDs.Add(uuid.String())
 		}
 	}
 
-	return node.cachedUniqueIDs
+	for _, id := range node.FamilySearchIDs() {
+		uniqueIDs.Add(id.String())
+	}
+
+	node.cachedUniqueIDs = uniqueIDs
+
+	return uniqueIDs
 }
 
 func (node *IndividualNode) resetCache() {
